@@ -835,6 +835,15 @@ pub fn run_sweep(thorough: bool, seed: u64, nthreads: usize, deadline: Instant, 
                     } else {
                         let site = if what.contains("run-away signal processing") { "signal-budget".to_string() } else if what.contains("Depth ConsiderJob") { "depth-guard".to_string() } else if what.contains("InternalError") { "internal-error".to_string() } else if what.contains("PANIC") { "panic".to_string() } else { "expectation".to_string() };
                         acc.violation(Witness { prop: "C19".into(), rule: "large-graph-misbehaves".into(), sig: format!("large-graph-misbehaves|{}:{}", c, site), detail: format!("{} with {} jobs, cascade {}: {}", sh, sz, c, what), replay_args: args.clone(), trace: line.to_string() });
+                        // problems the lean driver tagged with another property's rule (progress, materialised inputs, abort)
+                        for tag in ["C02", "C05", "C10"] {
+                            if probs.contains(&format!("[\"{}\"", tag)) {
+                                acc.violation(Witness { prop: tag.into(), rule: "large-graph-misbehaves".into(), sig: format!("large-graph-misbehaves|{}:{}", c, tag), detail: format!("{} with {} jobs, cascade {}: {}", sh, sz, c, what), replay_args: args.clone(), trace: line.to_string() });
+                            }
+                        }
+                        if site == "signal-budget" {
+                            acc.violation(Witness { prop: "C05".into(), rule: "large-graph-misbehaves".into(), sig: format!("large-graph-misbehaves|{}:signal-budget", c), detail: format!("{} with {} jobs, cascade {}: {}", sh, sz, c, what), replay_args: args.clone(), trace: line.to_string() });
+                        }
                         if site != "expectation" && site != "signal-budget" {
                             acc.violation(Witness { prop: "C06".into(), rule: "large-graph-error".into(), sig: format!("large-graph-error|{}:{}", c, site), detail: format!("{} with {} jobs, cascade {}: {}", sh, sz, c, what), replay_args: args, trace: line.to_string() });
                         }
